@@ -91,8 +91,9 @@ def build_electric_component(d):
     eff = curve(d.get("eff", [0.95]))
     if cls in ("genset", "genset_df", "genset_rect"):
         eng = build_engine(d)
+        # d["gen_speed"]: a generator whose rated speed is not the engine's (geared set, or simply left at 0)
         gen = ElectricMachine(type_=TypeComponent.GENERATOR, name=name + "_gen", rated_power=rated,
-                              rated_speed=F(d.get("engine", {}).get("speed", 900)), power_type=TypePower.POWER_SOURCE,
+                              rated_speed=F(d.get("gen_speed", d.get("engine", {}).get("speed", 900))), power_type=TypePower.POWER_SOURCE,
                               switchboard_id=swb, eff_curve=eff)
         rect = None
         if cls == "genset_rect":
